@@ -240,6 +240,10 @@ func (x *g) genMethod(sv *spec.Service, j int, used map[string]bool) {
 	case rk <= 5 && (x.resultTypes() != nil || x.objectTypes() != nil):
 		if rts := x.resultTypes(); rts != nil && (x.o.Profile == "views" || x.chance(1, 2)) {
 			t := rts[x.r.Intn(len(rts))]
+			if x.o.Profile == "views" && len(rts) >= 2 && x.chance(1, 2) {
+				// the nested-view gadget types come last: the deepest ones are returned more often
+				t = rts[len(rts)-1-x.r.Intn(2)]
+			}
 			if x.chance(1, 4) {
 				m.Result = &spec.Attr{Type: &spec.Type{Kind: spec.Array, Collection: true, Elem: &spec.Attr{Type: &spec.Type{Kind: spec.Ref, Ref: t.Name}}}}
 				x.s.AddFeature("result-collection")
